@@ -24,7 +24,8 @@ CONSUMER_TRAITS = ("core::iter::traits::collect::Extend", "core::iter::traits::c
 OTHER_SOURCES = [
     (re.compile(r"^chrono::offset::local::Local::now$|^chrono::offset::utc::Utc::now$"), "clock"),
     (re.compile(r"^std::time::(Instant|SystemTime)::now$"), "clock"),
-    (re.compile(r"^std::thread::(spawn|scope|Builder::spawn)"), "thread"),
+    (re.compile(r"^std::thread::(functions::|scoped::|builder::)?(spawn|scope|spawn_scoped|Builder::spawn|Builder::spawn_scoped)|"
+                r"^std::thread::(Builder|Scope)::|^std::sync::mpsc::(channel|sync_channel)$|^rayon::|^crossbeam"), "thread"),
     (re.compile(r"^std::hash::random::RandomState::new$|^<std::hash::random::RandomState as core::default::Default>::default$"), "random-hasher"),
     (re.compile(r"^std::env::(var|vars|var_os|args|args_os|current_dir|temp_dir)"), "environment"),
     (re.compile(r"^std::fs::read_dir$"), "directory-order"),
